@@ -9,6 +9,7 @@ package group_test
 // ref/wcurve and ref/ecurve.
 
 import (
+	"math/big"
 	"testing"
 
 	"github.com/cloudflare/circl/group"
@@ -20,8 +21,9 @@ import (
 
 func c09GroupDec(cs []c09ref.Case) []verifmc.DecCase {
 	out := make([]verifmc.DecCase, len(cs))
+	bases := c09ref.Bases(cs)
 	for i, c := range cs {
-		out[i] = verifmc.DecCase{Name: c.Name, Class: c.Class, Data: c.Data}
+		out[i] = verifmc.DecCase{Name: c.Name, Class: c.Class, Data: c.Data, Base: bases[i]}
 	}
 	return out
 }
@@ -59,46 +61,84 @@ func c09GroupNIST(t *testing.T, unit string, g group.Group, c *wcurve.Curve) {
 	defer r.Finish()
 	r.Rule("all 256 one-byte strings (complete); compressed and uncompressed: [a]G for a in {1,2,3,n-1,(n+1)/2,5 SHAKE values} (reference and library), all single-bit flips of 4 (quick) / 10 (thorough) of them, " +
 		"all 256 prefix bytes on two bases and on a zero body, coordinates p+j and 2^bits-1-j (j<8), the 3 curve points with smallest x (both y) and their aliases x+p, y+p, " +
-		"unused high bits (P-521), points off the curve and on y^2=x^3-3x+b+-1; distinct = distinct (entry point, input bytes)")
+		"unused high bits (P-521), points off the curve and on y^2=x^3-3x+b+-1; the 27 curve points with smallest x (both y) from the reference, and the library's serialisation of them in each format obtained through the other format's decoder (must decode again); " +
+		"every case also decoded into an element that already holds the nearest valid point, and before it; distinct = distinct (entry point, input bytes)")
 	_, cl, _ := c09ref.SEC1Lens(c)
+	observe := func(e group.Element, in []byte) verifmc.DecResult {
+		keep := c09ref.Clone(in)
+		if err := e.UnmarshalBinary(in); err != nil {
+			return verifmc.DecResult{}
+		}
+		res := verifmc.DecResult{Accepted: true}
+		var un, co []byte
+		var err1, err2 error
+		if p, _ := verifmc.Try(func() { un, err1 = e.MarshalBinary(); co, err2 = e.MarshalBinaryCompress() }); p {
+			res.Note = "accepted-value-makes-the-encoder-panic"
+			return res
+		}
+		if err1 != nil || err2 != nil {
+			res.Note = "marshal-fails-after-accept"
+		}
+		res.Point = un
+		res.Reenc = un
+		if len(in) == cl {
+			res.Reenc = co
+		}
+		if string(keep) != string(in) {
+			res.Note = "input-modified"
+		}
+		return res
+	}
 	for format := 0; format < 3; format++ {
 		fname := []string{"identity", "compressed", "uncompressed"}[format]
 		entry := "group." + c.Name + ".UnmarshalBinary/" + fname
-		cases := c09ref.SEC1Cases(c, format, c09ref.SEC1Options{FlipBases: r.Pick(4, 10)})
+		cases := c09ref.SEC1Cases(c, format, c09ref.SEC1Options{FlipBases: r.Pick(4, 10), Special: 24})
 		if format > 0 {
 			cases = append(cases, c09LibEncodings(r, entry, g, c09ref.Scalars(c.N), format == 1)...)
+			// the library's own serialisation of the constructed points (smallest x), obtained by decoding the
+			// OTHER format (whose decoder takes no / another square root) and marshalling in this one
+			for _, o := range c09ref.SEC1Cases(c, 3-format, c09ref.SEC1Options{Special: 24}) {
+				if o.Class != "special" && o.Class != "valid" {
+					continue
+				}
+				e := g.NewElement()
+				if err := e.UnmarshalBinary(c09ref.Clone(o.Data)); err != nil {
+					continue
+				}
+				var enc []byte
+				if format == 1 {
+					enc, _ = e.MarshalBinaryCompress()
+				} else {
+					enc, _ = e.MarshalBinary()
+				}
+				cases = append(cases, c09ref.Case{Name: "speciallib/" + o.Name, Class: "special-lib", Data: enc})
+			}
 		} else {
 			enc, _ := g.Identity().MarshalBinary()
 			cases = append(cases, c09ref.Case{Name: "lib/identity", Class: "valid-lib", Data: enc})
 		}
-		r.CheckDecoder(verifmc.DecSpec{Entry: entry, Cases: c09GroupDec(cases), RefAll: true,
+		// the same element object takes all three formats: sequence the one-byte strings with a point in either
+		// format, and (thorough) the point formats with the identity byte and with the generator in the other format
+		gen := c.BaseMult(big.NewInt(1))
+		extra := [][]byte{c09ref.SEC1Encode(c, gen, false), c09ref.SEC1Encode(c, gen, true)}
+		if format > 0 {
+			extra = nil
+			if r.Thorough() {
+				extra = [][]byte{{0}, c09ref.SEC1Encode(c, gen, format == 2)}
+			}
+		}
+		r.CheckDecoder(verifmc.DecSpec{Entry: entry, Cases: c09GroupDec(cases), RefAll: true, ExtraBases: extra,
 			Ref: func(in []byte) verifmc.DecOracle {
 				v := c09ref.SEC1Verdict(c, in)
 				return verifmc.DecOracle{Member: v.Member, Reason: v.Reason, Point: v.Point}
 			},
 			AcceptOnly: func(in []byte) bool { return g.NewElement().UnmarshalBinary(in) == nil },
-			Lib: func(in []byte) verifmc.DecResult {
-				keep := c09ref.Clone(in)
+			Seq: func(first, second []byte) verifmc.DecResult {
 				e := g.NewElement()
-				if err := e.UnmarshalBinary(in); err != nil {
-					return verifmc.DecResult{}
-				}
-				res := verifmc.DecResult{Accepted: true}
-				un, err1 := e.MarshalBinary()
-				co, err2 := e.MarshalBinaryCompress()
-				if err1 != nil || err2 != nil {
-					res.Note = "marshal-fails-after-accept"
-				}
-				res.Point = un
-				res.Reenc = un
-				if len(in) == cl {
-					res.Reenc = co
-				}
-				if string(keep) != string(in) {
-					res.Note = "input-modified"
-				}
-				return res
-			}})
+				_ = e.UnmarshalBinary(first)
+				return observe(e, second)
+			},
+			Lib: func(in []byte) verifmc.DecResult { return observe(g.NewElement(), in) }})
 	}
 	r.RequireCounter("in:prefix", 1700)
 	r.RequireCounter("in:flip", int64(4*8*(3*c.ByteLen+2)-16))
@@ -107,6 +147,8 @@ func c09GroupNIST(t *testing.T, unit string, g group.Group, c *wcurve.Curve) {
 	r.RequireCounter("in:offcurve", 9)
 	r.RequireCounter("in:valid-lib", 21)
 	r.RequireCounter("accepted", 60)
+	r.RequireCounter("in:special-lib", 80)
+	r.RequireCounter("reused_receiver_cases", 3000)
 }
 
 func TestVerifC09_group_P256(t *testing.T) { c09GroupNIST(t, "group_P256", group.P256, wcurve.P256()) }
@@ -118,9 +160,10 @@ func TestVerifC09_group_ristretto255(t *testing.T) {
 	defer r.Finish()
 	r.Rule("32-byte strings: [a]G for a in {0,1,2,3,L-1,(L+1)/2,5 SHAKE values} (reference and library), RFC 9496 A.1 multiples, all 256 single-bit flips of 4 (quick) / 11 (thorough) of them, " +
 		"the 29 invalid encodings of RFC 9496 A.3, all 19 values s in [p,2^255) with and without bit 255 (complete), p-s and bit 255 for every valid s, s = 0..63; " +
-		"the decoded value is seen only through re-serialisation; distinct = distinct input bytes")
+		"encodings of the doubles of the edwards25519 points with x or y in {0,+-1,+-sqrt(-1),+-j (j<16)} and of small order (canonical encodings of elements: must be accepted); " +
+		"every case also decoded into an element that already holds the nearest valid one, and before it; the decoded value is seen only through re-serialisation; distinct = distinct input bytes")
 	g := group.Ristretto255
-	cases := c09ref.RistrettoCases(c09ref.EdOptions{FlipBases: r.Pick(4, 11)})
+	cases := c09ref.RistrettoCases(c09ref.EdOptions{FlipBases: r.Pick(4, 11), Special: 16})
 	cases = append(cases, c09LibEncodings(r, "group.ristretto255.UnmarshalBinary", g, c09ref.Scalars(ecurve.Edwards25519().N), false)...)
 	r.CheckDecoder(verifmc.DecSpec{Entry: "group.ristretto255.UnmarshalBinary", Cases: c09GroupDec(cases), RefAll: true,
 		Ref: func(in []byte) verifmc.DecOracle {
@@ -128,6 +171,18 @@ func TestVerifC09_group_ristretto255(t *testing.T) {
 			return verifmc.DecOracle{Member: v.Member, Reason: v.Reason, Point: v.Point}
 		},
 		AcceptOnly: func(in []byte) bool { return g.NewElement().UnmarshalBinary(in) == nil },
+		// ristretto255 has prime order: every canonical encoding is the encoding of some [k]B, a value the library serialises
+		MustAccept:    func(cl string) bool { return cl == "valid-lib" || cl == "valid" || cl == "special" },
+		MustAcceptWhy: "the canonical RFC 9496 encoding of a group element (some [k]B) is refused",
+		Seq: func(first, second []byte) verifmc.DecResult {
+			e := g.NewElement()
+			_ = e.UnmarshalBinary(first)
+			if err := e.UnmarshalBinary(second); err != nil {
+				return verifmc.DecResult{}
+			}
+			un, _ := e.MarshalBinary()
+			return verifmc.DecResult{Accepted: true, Reenc: un, Point: un}
+		},
 		Lib: func(in []byte) verifmc.DecResult {
 			keep := c09ref.Clone(in)
 			e := g.NewElement()
@@ -153,4 +208,6 @@ func TestVerifC09_group_ristretto255(t *testing.T) {
 	r.RequireCounter("in:negative", 10)
 	r.RequireCounter("in:valid-lib", 11)
 	r.RequireCounter("accepted", 40)
+	r.RequireCounter("in:special", 20)
+	r.RequireCounter("reused_receiver_cases", 1000)
 }
